@@ -97,10 +97,37 @@ def build(case, want_bases=False):
         else:
             elems = [build_elem(e, pool, core) for e in rows]
         return make_view(elems, mode, la)
-    a, abase = arr(case['a'], case.get('a_view'))
-    b, bbase = arr(case.get('b'), case.get('b_view'))
+    if case['fn'] in ND_FNS:
+        a, abase = make_nd(case['na'], case.get('a_view'), pool, core, la)
+        b, bbase = make_nd(case['nb'], case.get('b_view'), pool, core, la)
+    else:
+        a, abase = arr(case['a'], case.get('a_view'))
+        b, bbase = arr(case.get('b'), case.get('b_view'))
     if want_bases: return pool, a, b, (abase, bbase)
     return pool, a, b
+
+ND_FNS = ('dotN', 'matmulN')
+VIEWSN = ['plain', 'swap', 'F']
+
+def make_nd(nd, mode, pool, core, la):
+    """an operand with any number of dimensions: {'shape': [...], 'flat': [descriptors, row-major]}.
+    shape [] is a scalar (the element itself is passed).  swap: the view np.swapaxes(base, -1, -2) of a
+    base stored with its last two axes exchanged; F: Fortran-ordered memory."""
+    import numpy as np
+    from GTC.uncertain_array import UncertainArray
+    shape = tuple(nd['shape'])
+    elems = [build_elem(e, pool, core) for e in nd['flat']]
+    if not shape:
+        return elems[0], None
+    o = np.empty(len(elems), dtype=object)
+    for i, e in enumerate(elems): o[i] = e
+    o = o.reshape(shape)
+    if mode == 'swap' and len(shape) >= 2:
+        base = UncertainArray(np.ascontiguousarray(np.swapaxes(o, -1, -2)))
+        return np.swapaxes(base, -1, -2), base
+    if mode == 'F' and len(shape) >= 2:
+        base = UncertainArray(np.asfortranarray(o)); return base, base
+    base = UncertainArray(o); return base, base
 
 def rows_of(x):
     """any result as rows of elements"""
@@ -123,6 +150,8 @@ def call_impl(case, a, b):
     if fn == 'at': return a @ b
     if fn == 'dot': return la.dot(a, b)
     if fn == 'transpose': return la.transpose(a)
+    if fn == 'dotN': return la.dot(a, b)
+    if fn == 'matmulN': return la.matmul(a, b) if not case.get('use_at') else a @ b
     raise ValueError(fn)
 
 # ------------------------------------------------------------------ Coq literals
@@ -158,7 +187,7 @@ def gen_prelude(rng, case):
     (zero divisors) ; unary operations and views.  The la functions depend on contents only."""
     steps = []
     for _ in range(rng.randint(1, 4)):
-        t = rng.choice(['a', 'b']) if case.get('b') is not None else 'a'
+        t = rng.choice(['a', 'b']) if (case.get('b') is not None or case.get('nb') is not None) else 'a'
         if rng.random() < 0.2:
             steps.append({'k': 'unary', 't': t, 'on': rng.choice(['arg', 'base']),
                           'f': rng.choice(['neg', 'pos', 'T', 'transpose', 'slice', 'abs', 'sqrt', 'log'])})
@@ -219,25 +248,89 @@ def run_prelude(case, a, b, bases):
             tags.append('pre-raises-' + type(ex).__name__)
     return tags
 
-def snapshot(x):
-    return None if x is None else (crows(rows_of(x)), [id(e) for e in x.flat])
+def _flat(x):
+    import numpy as np
+    return list(x.flat) if isinstance(x, np.ndarray) else [x]
 
-def case_term(case):
-    """run the implementation; return (gallina term of type Z, info)"""
-    pool, a, b, bases = build(case, want_bases=True)
+def _shape(x):
+    import numpy as np
+    return tuple(x.shape) if isinstance(x, np.ndarray) else ()
+
+def snapshot(x):
+    import numpy as np
+    if x is None: return None
+    if not isinstance(x, np.ndarray): return (celt(x), id(x))
+    return (_shape(x), clist([celt(e) for e in x.flat]), [id(e) for e in x.flat])
+
+def _prod(t):
+    r = 1
+    for v in t: r *= v
+    return r
+
+def nd_call(case, a, b, r, exn):
+    """Gallina call and expected outcome for la.dot / la.matmul on N-d operands.  Returns
+    (call, expected, shape_problem)"""
+    nat = lambda k: '%d%%nat' % k
+    nl = lambda t: clist([nat(v) for v in t])
+    fa, fb = _flat(a), _flat(b); sa, sb = _shape(a), _shape(b)
+    FA = clist([celt(e) for e in fa]); FB = clist([celt(e) for e in fb])
+    problem = None
+    if case['fn'] == 'dotN' and (sa == () or sb == ()):
+        if sa == ():
+            call = '(CScale NF true %s %s)' % (celt(a), FB); spec = sb; A2, B2 = FB, '[]'
+        else:
+            call = '(CScale NF false %s %s)' % (celt(b), FA); spec = sa; A2, B2 = FA, '[]'
+        args = '[%s], []' % A2
+    elif case['fn'] == 'dotN':
+        PA = _prod(sa[:-1]); La = sa[-1]
+        if len(sb) == 1: Lb, QB, M, tail = sb[0], 1, 1, ()
+        else: Lb, QB, M, tail = sb[-2], _prod(sb[:-2]), sb[-1], sb[:-2] + (sb[-1],)
+        call = '(CDotN NF %s %s %s %s %s %s %s)' % (nat(PA), nat(La), nat(Lb), nat(QB), nat(M), FA, FB)
+        spec = sa[:-1] + tail
+        args = '[%s], [%s]' % (FA, FB)
+    elif len(sa) != len(sb):
+        call = '(CMatmulMixed NF %s %s)' % (nat(len(sa)), nat(len(sb)))
+        a1 = (1,) + sa if len(sa) == 1 else sa; b1 = sb + (1,) if len(sb) == 1 else sb
+        k = max(len(a1), len(b1)) - 2
+        SA = (1,) * (k - len(a1) + 2) + a1[:-2]; SB = (1,) * (k - len(b1) + 2) + b1[:-2]
+        spec = tuple(max(x, y) for x, y in zip(SA, SB)) + (() if len(sa) == 1 else (sa[-2],)) + (() if len(sb) == 1 else (sb[-1],))
+        args = '[%s], [%s]' % (FA, FB)
+    else:
+        SA, SB = sa[:-2], sb[:-2]
+        call = '(CMatmulN NF %s %s %s %s %s %s %s %s)' % (nl(SA), nl(SB), nat(sa[-2]), nat(sa[-1]), nat(sb[-2]),
+                                                      nat(sb[-1]), FA, FB)
+        spec = tuple(max(x, y) for x, y in zip(SA, SB)) + (sa[-2], sb[-1])
+        args = '[%s], [%s]' % (FA, FB)
+    if exn is None:
+        if _shape(r) != tuple(spec):
+            problem = 'result shape %r, numpy semantics give %r' % (_shape(r), tuple(spec))
+        expected = '(Ok ([%s], %s))' % (clist([celt(e) for e in _flat(r)]), args)
+    else:
+        expected = '(Err %s)' % cexn(exn)
+    return call, expected, problem
+
+def one_call(case, a, b, bases):
+    """one call of the implementation on the arrays as they are NOW; the model is evaluated on the
+    contents read at this moment.  Returns (gallina term of type Z, info)"""
     fn = case['fn']
-    ra = rows_of(a); rb = rows_of(b) if b is not None else []
-    A = crows(ra); B = crows(rb)
+    nd = fn in ND_FNS
     snap_all = lambda: (snapshot(a), snapshot(b), snapshot(bases[0]), snapshot(bases[1]),
-                        a.shape, a.strides, None if b is None else (b.shape, b.strides))
+                        _shape(a), getattr(a, 'strides', None), _shape(b) if b is not None else None,
+                        getattr(b, 'strides', None))
+    if not nd:
+        ra = rows_of(a); rb = rows_of(b) if b is not None else []
+        A = crows(ra); B = crows(rb)
+    else:
+        pre_call = nd_call(case, a, b, None, 'pending')[0]     # operands as literals BEFORE the call
     before = snap_all()
-    info = {'exn': None, 'args_modified': False}
-    info['prelude'] = run_prelude(case, a, b, bases)
+    info = {'exn': None, 'args_modified': False, 'shape_problem': None}
+    r = None
     try:
         r = call_impl(case, a, b)
-        R = crows(rows_of(r))
-        A2 = crows(rows_of(a)); B2 = crows(rows_of(b)) if b is not None else '[]'
-        expected = '(Ok (%s, %s, %s))' % (R, A2, B2)
+        if not nd:
+            R = crows(rows_of(r))
+            A2 = crows(rows_of(a)); B2 = crows(rows_of(b)) if b is not None else '[]'
+            expected = '(Ok (%s, %s, %s))' % (R, A2, B2)
     except Unmodelled:
         raise
     except Exception as ex:
@@ -245,12 +338,13 @@ def case_term(case):
         expected = '(Err %s)' % cexn(type(ex).__name__)
     if snap_all() != before:
         info['args_modified'] = True
+    if nd:
+        call, expected, info['shape_problem'] = nd_call(case, a, b, r, info['exn'])
+        return '(check_call NF %s %s)' % (pre_call, expected), info
     n = len(ra); m = len(ra[0]) if ra else 0
     nat = lambda k: '%d%%nat' % k
     if fn == 'solve':
-        call = '(CSolve NF %s %s %s)' % (nat(n), A, clist([celt(r[0]) for r in rb]))
-        if info['exn'] is None:   # model reports b as a column
-            pass
+        call = '(CSolve NF %s %s %s)' % (nat(n), A, clist([celt(r_[0]) for r_ in rb]))
     elif fn == 'inv': call = '(CInv NF %s %s)' % (nat(n), A)
     elif fn == 'det': call = '(CDet NF %s %s)' % (nat(n), A)
     elif fn == 'invab':
@@ -258,7 +352,7 @@ def case_term(case):
     elif fn in ('matmul', 'at', 'dot'):
         # 1-D operands: lhs (m,) is a 1 x m row, rhs (m,) an m x 1 column
         if a.ndim == 1:
-            ra = [[r[0] for r in ra]]; n, m = 1, len(ra[0])
+            ra = [[r_[0] for r_ in ra]]; n, m = 1, len(ra[0])
         p = 1 if b.ndim == 1 else (len(rb[0]) if rb else 0)
         A = crows(ra)
         if info['exn'] is None:
@@ -273,6 +367,77 @@ def case_term(case):
     else:
         raise ValueError(fn)
     return '(check_call NF %s %s)' % (call, expected), info
+
+# ------------------------------------------------------------------ in-place changes between calls
+def gen_mutations(rng, shape_a, shape_b, kind, npool, oracle_dom=None):
+    """in-place changes of the argument arrays between two calls on the SAME objects.  oracle_dom (for
+    the oracle's well-conditioned matrices): column of the dominant element of each row of a; then only
+    changes of a that keep it well conditioned are generated."""
+    muts = []
+    for _ in range(rng.randint(0, 3)):
+        t = rng.choice(['a', 'b']) if shape_b else 'a'
+        shp = shape_a if t == 'a' else shape_b
+        if not shp:
+            continue
+        idx = [rng.randrange(d) for d in shp]
+        c = rng.choice([2.0, 3.0, -0.5, 2, -1.0])
+        safe = (t == 'b' or oracle_dom is None)
+        kinds = ['scale_elem', 'scale_row', 'imul', 'set_num', 'set_pool', 'iadd'] if safe else \
+                ['scale_elem', 'scale_row', 'imul']
+        m = rng.choice(kinds)
+        if m == 'set_pool' and not npool: m = 'set_num'
+        if not safe and m == 'scale_elem':
+            idx = [idx[0], oracle_dom[idx[0]]]; c = rng.choice([2.0, 3.0])
+        v = rng.randint(-9, 9) if kind == 'int' else rnd_val(rng)
+        muts.append({'m': m, 't': t, 'idx': idx, 'c': c, 'v': v, 'k': rng.randrange(npool) if npool else 0})
+    return muts
+
+def apply_mutations(muts, arrs, pool):
+    """arrs = {'a': array, 'b': array}; returns the (possibly rebound) arrays and tags"""
+    import numpy as np, operator, warnings
+    tags = []
+    for mu in muts:
+        x = arrs.get(mu['t'])
+        if not isinstance(x, np.ndarray): continue
+        try:
+            idx = tuple(mu['idx'][:x.ndim])
+            if mu['m'] == 'scale_elem': x[idx] = x[idx] * mu['c']
+            elif mu['m'] == 'set_num': x[idx] = mu['v']
+            elif mu['m'] == 'set_pool': x[idx] = pool[mu['k']]
+            elif mu['m'] == 'scale_row':
+                if x.ndim == 1:
+                    x[idx[0]:] = [e * mu['c'] for e in x[idx[0]:]]
+                else:
+                    sub = x[idx[0]]
+                    new = np.empty(sub.size, dtype=object)
+                    for i, e in enumerate(sub.flat): new[i] = e * mu['c']
+                    x[idx[0]] = new.reshape(sub.shape)
+            elif mu['m'] in ('imul', 'iadd'):
+                with warnings.catch_warnings():
+                    warnings.simplefilter('ignore')
+                    arrs[mu['t']] = (operator.imul if mu['m'] == 'imul' else operator.iadd)(x, mu['c'])
+            tags.append('mut-' + mu['m'])
+        except Exception as ex:
+            tags.append('mut-raises-' + type(ex).__name__)
+    return tags
+
+def case_terms(case):
+    """build the arrays, run the history, then the call -- and, for a case with a 'sequence', change
+    the SAME array objects in place and call again (each call compared with the model evaluated on the
+    contents at that moment).  Returns [(gallina term, info), ...]"""
+    pool, a, b, bases = build(case, want_bases=True)
+    pre = run_prelude(case, a, b, bases)
+    out = []
+    t, info = one_call(case, a, b, bases)
+    info['prelude'] = pre; info['call'] = 0
+    out.append((t, info))
+    arrs = {'a': a, 'b': b}
+    for k, muts in enumerate(case.get('sequence') or []):
+        tags = apply_mutations(muts, arrs, pool)
+        t, info = one_call(case, arrs['a'], arrs['b'], bases)
+        info['prelude'] = tags + ['repeat-call' if muts else 'repeat-call-unchanged']; info['call'] = k + 1
+        out.append((t, info))
+    return out
 
 HEADER = '''From Coq Require Import ZArith List PrimFloat.
 From GTCV Require Import Num FNum Vector Opres KTypes Kernel LU LUInst.
@@ -344,7 +509,7 @@ def gen_matrix_vals(rng, n, style, integer=False):
     return m
 
 KINDS = ['float', 'int', 'unc', 'mixed']
-FNS = ['solve', 'solve', 'inv', 'det', 'invab', 'matmul', 'at', 'dot', 'transpose']
+FNS = ['solve', 'solve', 'inv', 'det', 'invab', 'matmul', 'at', 'dot', 'transpose', 'dotN', 'dotN', 'matmulN']
 
 def elem_with_value(rng, kind, pool, v):
     """an element of the array kind whose VALUE is v (so that the pivoting pattern is controlled)"""
@@ -368,6 +533,11 @@ def gen_case(rng, ctx, malformed=False):
     n = rng.choice([1, 2, 2, 3, 3, 4, 4, 5, 6])
     pool = gen_pool(rng) if kind in ('unc', 'mixed') else []
     case = {'ctx': ctx, 'fn': fn, 'kind': kind, 'n': n, 'pool': pool, 'b': None}
+    if fn in ND_FNS:
+        if not pool and kind in ('unc', 'mixed'): pool = case['pool'] = gen_pool(rng)
+        gen_nd(rng, case, kind, pool, malformed)
+        add_history(rng, case)
+        return case
     if fn in ('solve', 'inv', 'det', 'invab'):
         style = rng.choice(['dom', 'dom', 'rand', 'rand', 'zero00', 'tiny'])
         if malformed: style = rng.choice(['singular', 'zerorow', 'nonsquare'])
@@ -404,17 +574,80 @@ def gen_case(rng, ctx, malformed=False):
     add_history(rng, case)
     return case
 
+def gen_nd(rng, case, kind, pool, malformed):
+    """operands of la.dot / la.matmul with up to 3 (matmul: 4) dimensions, incl. scalars for dot.
+    matmul: both operands with the same number (>= 3) of dimensions, stack dimensions equal or 1
+    or -- known finding C15-3 -- operands of DIFFERENT rank, one of them >= 3-D, which numpy.matmul
+    broadcasts / promotes and la.matmul answers with IndexError)."""
+    d = lambda: rng.randint(1, 3)
+    L = d()
+    if case['fn'] == 'dotN':
+        sa = rng.choice([[], [L], [d(), L], [d(), d(), L], [d(), d(), L]])
+        sb = rng.choice([[], [L], [L, d()], [d(), L, d()], [d(), L, d()]])
+        if len(sa) < 3 and len(sb) < 3 and sa and sb:        # make sure something is N-d or scalar
+            if rng.random() < 0.5: sa = [d(), d(), L]
+            else: sb = [d(), L, d()]
+        if malformed and sa and sb:
+            sb = list(sb); sb[0 if len(sb) == 1 else -2] = L + 1
+    else:
+        if not malformed and rng.random() < 0.3:        # different rank (C15-3)
+            M = d()
+            sa, sb = rng.choice([([d(), d(), L], [L, M]), ([d(), L], [d(), L, M]), ([L], [d(), L, M]),
+                                 ([d(), d(), L], [L]), ([d(), 1, d(), L], [d(), L, M]), ([d(), L], [d(), d(), L, M])])
+            case['use_at'] = rng.random() < 0.4
+            mk = lambda shp: {'shape': list(shp), 'flat': [gen_elem(rng, kind, pool) for _ in range(_prod(shp))]}
+            case['na'], case['nb'] = mk(sa), mk(sb)
+            case['a'] = None
+            case['n'] = max(list(sa) + list(sb) + [1])
+            case['style'] = 'nd%d%d-mixed-rank' % (len(sa), len(sb))
+            return
+        k = rng.choice([1, 1, 2])
+        SA = [d() for _ in range(k)]
+        SB = [x if rng.random() < 0.6 else 1 for x in SA]
+        if rng.random() < 0.3: SA = [1 if rng.random() < 0.5 else x for x in SA]
+        if malformed:
+            if rng.random() < 0.5: SB[0] = SA[0] + 1 if SA[0] > 1 else 3; SA[0] = max(SA[0], 2)
+            sa = SA + [d(), L]; sb = SB + [L + (0 if SB[0] != SA[0] and SB[0] != 1 and SA[0] != 1 else 1), d()]
+        else:
+            sa = SA + [d(), L]; sb = SB + [L, d()]
+        case['use_at'] = rng.random() < 0.4
+    mk = lambda shp: {'shape': list(shp), 'flat': [gen_elem(rng, kind, pool) for _ in range(_prod(shp))]}
+    case['na'], case['nb'] = mk(sa), mk(sb)
+    case['a'] = None
+    case['n'] = max(list(sa) + list(sb) + [1])
+    case['style'] = 'nd%d%d' % (len(sa), len(sb)) + ('-misaligned' if malformed else '')
+
+def case_shapes(case):
+    def shp(rows):
+        if rows is None: return None
+        return [len(rows), len(rows[0])] if is2d(rows) else [len(rows)]
+    if case['fn'] in ND_FNS: return case['na']['shape'], case['nb']['shape']
+    return shp(case['a']), shp(case.get('b'))
+
+def add_sequence(rng, case, oracle_dom=None):
+    """the same call repeated on the SAME array objects, with in-place changes in between"""
+    if rng.random() < 0.35:
+        sa, sb = case_shapes(case)
+        if case['fn'] in ND_FNS or (sa and all(len(r) == len(case['a'][0]) for r in case['a']) if is2d(case['a']) else True):
+            case['sequence'] = [gen_mutations(rng, sa, sb, case['kind'], len(case['pool']), oracle_dom)
+                                for _ in range(rng.randint(1, 2))]
+
 def is2d(rows):
     return bool(rows) and isinstance(rows[0], list) and bool(rows[0]) and isinstance(rows[0][0], list)
 
-def add_history(rng, case):
+def add_history(rng, case, oracle_dom=None):
     add_views(rng, case)
     if rng.random() < 0.4:
         case['prelude'] = gen_prelude(rng, case)
+    add_sequence(rng, case, oracle_dom)
 
 def add_views(rng, case):
     """how the arguments are laid out in memory: half of the calls get a transpose view, a
     Fortran-ordered array, or a window / strided / reversed view of a larger base array"""
+    if case['fn'] in ND_FNS:
+        for key, nd in (('a', case['na']), ('b', case['nb'])):
+            case[key + '_view'] = rng.choice(VIEWSN) if len(nd['shape']) >= 2 else 'plain'
+        return
     for key in ('a', 'b'):
         rows = case.get(key)
         if rows is None: continue
@@ -442,6 +675,7 @@ def classify(case, info):
     tags = [case['fn'], 'kind=' + case['kind'], 'n=%d' % case['n'], 'style=' + str(case.get('style')),
             'a_view=' + str(case.get('a_view'))]
     if case.get('b') is not None: tags.append('b_view=' + str(case.get('b_view')))
+    if case.get('sequence') and info.get('call') == 0: tags.append('with-sequence')
     if info['exn']: tags.append('raises=' + info['exn'])
     tags.extend(info.get('prelude') or [])
     if case.get('prelude'): tags.append('with-prelude')
@@ -451,29 +685,34 @@ def run_corr(rng, ncases, name):
     cases = []; terms = []; infos = []; mism = []
     stats = collections.Counter()
     i = 0
+    ncalls = 0
     while len(cases) < ncases:
         i += 1
         case = gen_case(rng, 100 + i, malformed=(i % 8 == 0))
         try:
-            t, info = case_term(case)
+            tis = case_terms(case)
         except Unmodelled as ex:
             stats['skipped-unmodelled'] += 1
             continue
-        cases.append(case); terms.append(t); infos.append(info)
-        stats.update(classify(case, info))
-        if info['args_modified']:
-            mism.append({'kind': 'argument-modified', 'case': case})
+        cases.append(case); ncalls += len(tis)
+        for t, info in tis:
+            terms.append(t); infos.append((case, info))
+            stats.update(classify(case, info))
+            if info['args_modified']:
+                mism.append({'kind': 'argument-modified', 'case': case, 'call': info['call']})
+            if info.get('shape_problem'):
+                mism.append({'kind': 'result-shape', 'what': info['shape_problem'], 'case': case, 'call': info['call']})
     vals, errors = coq_eval_cases('lu_' + name, HEADER, terms, per_file=28)
     for e in errors:
         mism.append({'kind': 'coqc-failed', 'file': e['file'], 'rc': e['rc'], 'output': e['output'][-1500:]})
     WHAT = {1: 'result differs', 2: 'argument a after the call differs', 3: 'argument b after the call differs',
             4: 'exception / no exception differs'}
-    for case, v, info in zip(cases, vals, infos):
+    for (case, info), v in zip(infos, vals):
         if v is not None and v != -1:
             mism.append({'kind': 'model-vs-implementation', 'what': WHAT.get(v, str(v)), 'case': case,
-                         'implementation_exception': info['exn']})
+                         'call': info['call'], 'implementation_exception': info['exn']})
     distinct = len(set(hashlib.sha1(json_key(c)).hexdigest() for c in cases if c['n'] > 1))
-    return {'programs': len(cases), 'steps': len(cases), 'mismatches': mism, 'distinct': distinct,
+    return {'programs': len(cases), 'steps': ncalls, 'mismatches': mism, 'distinct': distinct,
             'distribution': dict(stats),
             'rule': 'random calls of la.solve/inv/det, LU.invab, la.matmul/dot/@, la.transpose on arrays of int / float / '
                     'uncertain-real / mixed elements (elementary inputs shared between a and b, intermediates, result() nodes, '
@@ -481,7 +720,9 @@ def run_corr(rng, ncases, name):
                     'matrices, every 8th case singular, zero-row, non-square or misaligned; half of the arguments are views; 40 % of the calls '
                     'are preceded by a random history of array operations on the operands or their base arrays (broadcasting binary '
                     'operations as first / second operand that succeed or raise and are caught, unary operations, views) which the model '
-                    'ignores; result elements, argument contents '
+                    'ignores; 35 % of the cases repeat the call on the SAME array objects after in-place changes (element / slice assignment, '
+                    '*=, +=, or none), each call compared with the model on the contents at that moment; la.dot / la.matmul also get N-d '
+                    'operands (dot: scalars, 1-D..3-D in all combinations; matmul: equal-rank stacks with broadcasting); result elements, argument contents '
                     'after the call and exception classes compared bit for bit with the FElt model; non-trivial = n > 1; '
                     'distinct by hash of the case',
             'samples': [{'case': c} for c in cases[:2]]}
@@ -494,8 +735,15 @@ def json_key(c):
 def gen_oracle_case(rng):
     """well-conditioned systems (row-permuted diagonally dominant), all element kinds incl. complex"""
     kind = rng.choice(['float', 'int', 'unc', 'mixed', 'complex', 'ucomplex'])
-    fn = rng.choice(['solve', 'solve', 'inv', 'det', 'invab', 'matmul', 'transpose'])
+    fn = rng.choice(['solve', 'solve', 'inv', 'det', 'invab', 'matmul', 'transpose', 'dotN', 'matmulN'])
     n = rng.randint(1, 6)
+    if fn in ND_FNS:
+        kind = rng.choice(KINDS)
+        pool = gen_pool(rng) if kind in ('unc', 'mixed') else []
+        case = {'ctx': 77, 'fn': fn, 'kind': kind, 'n': n, 'pool': pool, 'b': None}
+        gen_nd(rng, case, kind, pool, False)
+        add_history(rng, case)
+        return case
     base = kind if kind in KINDS else 'mixed'
     pool = gen_pool(rng) if kind != 'float' and kind != 'int' else []
     vals = gen_matrix_vals(rng, n, 'dom', integer=(kind == 'int'))
@@ -515,7 +763,8 @@ def gen_oracle_case(rng):
     if fn in ('invab', 'matmul'):
         m = rng.randint(1, 3)
         case['b'] = [[rhs() for _ in range(m)] for _ in range(n)]
-    add_history(rng, case)
+    dom = [max(range(n), key=lambda j: abs(r[j])) for r in vals]
+    add_history(rng, case, oracle_dom=dom)
     return case
 
 def flat_descr(rows):
@@ -569,28 +818,93 @@ def _residual_fail(lhs_rows, rhs_rows, terms_scale, pool, tol, what):
     return None
 
 def oracle_check(case):
-    """None if the property holds on this input (to conservative tolerances), else a dict"""
-    import numpy as np
-    from GTC import la, LU, lib
+    """None if the property holds on this input (to conservative tolerances), else a dict.  A case with a
+    'sequence' is checked at every call, on the contents the arrays have at that call."""
     try:
         pool, a, b, bases = build(case, want_bases=True)
     except Exception:
         return None
+    run_prelude(case, a, b, bases)
+    why = _oracle_once(case, pool, a, b, bases, True)
+    arrs = {'a': a, 'b': b}
+    k = 0
+    for k, muts in enumerate(case.get('sequence') or [], 1):
+        if why is not None: k -= 1; break
+        apply_mutations(muts, arrs, pool)
+        why = _oracle_once(case, pool, arrs['a'], arrs['b'], bases, False)
+    if why is None: return None
+    return dict(case, why=('call %d: ' % k if case.get('sequence') else '') + why,
+                rhs_zero_uncertain=rhs_zero_uncertain(case))
+
+def _nd_spec(fn, a, b):
+    """shape and flat elements of dot / matmul by the element-wise sum-of-products definition"""
+    import numpy as np, itertools
+    sa, sb = _shape(a), _shape(b)
+    def sop(f, g, L):
+        acc = f(0) * g(0)
+        for l in range(1, L): acc = acc + f(l) * g(l)
+        return acc
+    if fn == 'dotN':
+        if sa == (): return sb, [a * e for e in _flat(b)]
+        if sb == (): return sa, [e * b for e in _flat(a)]
+        L = sa[-1]
+        if len(sb) == 1:
+            return sa[:-1], [sop(lambda l: a[ia + (l,)], lambda l: b[l], L) for ia in np.ndindex(*sa[:-1])]
+        out = []
+        for ia in np.ndindex(*sa[:-1]):
+            for ib in np.ndindex(*sb[:-2]):
+                for m in range(sb[-1]):
+                    out.append(sop(lambda l: a[ia + (l,)], lambda l: b[ib + (l, m)], L))
+        return sa[:-1] + sb[:-2] + (sb[-1],), out
+    if len(sa) != len(sb):          # numpy.matmul: promote 1-D operands, pad the shorter stack with 1s
+        a1 = a.reshape((1,) + sa) if len(sa) == 1 else a
+        b1 = b.reshape(sb + (1,)) if len(sb) == 1 else b
+        k = max(a1.ndim, b1.ndim)
+        a1 = a1.reshape((1,) * (k - a1.ndim) + a1.shape); b1 = b1.reshape((1,) * (k - b1.ndim) + b1.shape)
+        shape, flat = _nd_spec(fn, a1, b1)
+        shape = shape[:-2] + (() if len(sa) == 1 else (shape[-2],)) + (() if len(sb) == 1 else (shape[-1],))
+        return shape, flat
+    SA, SB = sa[:-2], sb[:-2]
+    S = tuple(max(x, y) for x, y in zip(SA, SB))
+    out = []
+    for s_ in np.ndindex(*S):
+        ia = tuple(0 if d == 1 else i for d, i in zip(SA, s_)); ib = tuple(0 if d == 1 else i for d, i in zip(SB, s_))
+        for i in range(sa[-2]):
+            for j in range(sb[-1]):
+                out.append(sop(lambda l: a[ia + (i, l)], lambda l: b[ib + (l, j)], sa[-1]))
+    return S + (sa[-2], sb[-1]), out
+
+def _oracle_once(case, pool, a, b, bases, first):
+    import numpy as np
+    from GTC import la, LU, lib
     fn = case['fn']
     tol = 1e-8
-    snap = lambda arr: None if arr is None else [(id(e), repr(e)) for e in arr.flat]
+    snap = lambda arr: None if arr is None else ([(id(e), repr(e)) for e in arr.flat] if isinstance(arr, np.ndarray) else repr(arr))
     snap_all = lambda: (snap(a), snap(b), snap(bases[0]), snap(bases[1]))
     before = snap_all()
-    run_prelude(case, a, b, bases)
     try:
         r = call_impl(case, a, b)
     except Exception as ex:
-        # well-conditioned non-singular input: an exception is a failure of the property
-        return dict(case, why='%s raised %s: %s' % (fn, type(ex).__name__, ex),
-                    rhs_zero_uncertain=rhs_zero_uncertain(case))
+        # well-conditioned non-singular / aligned input: an exception is a failure of the property
+        return '%s raised %s: %s' % (fn, type(ex).__name__, ex)
     why = None
     if snap_all() != before:
         why = '%s modified its arguments (or the base array of a view)' % fn
+    if fn in ND_FNS:
+        if why: return why
+        shape, flat = _nd_spec(fn, a, b)
+        if _shape(r) != tuple(shape):
+            return '%s result has shape %r, the sum-of-products definition gives %r' % (fn, _shape(r), tuple(shape))
+        for t, (x, y) in enumerate(zip(_flat(r), flat)):
+            d = x - y
+            sv = abs(_val(x)) + abs(_val(y)) + 1e-300
+            if abs(_val(d)) > 1e-11 * sv:
+                return '%s element %d differs from the sum of products: %r vs %r' % (fn, t, _val(x), _val(y))
+            for k, inp in enumerate(pool):
+                c = _comp(d, inp)
+                if c > 1e-11 * (_comp(x, inp) + _comp(y, inp)) + 1e-300 and c > 1e-14 * sv:
+                    return '%s element %d: component w.r.t. input %d differs from the sum of products by %r' % (fn, t, k, c)
+        return None
     A = [list(row) for row in a]
     def scale_of(A_, X_):
         def f(i, j):
@@ -610,15 +924,16 @@ def oracle_check(case):
         why = _residual_fail(_sumprod(A, X), I, scale_of(A, X), pool, tol, 'a.inv(a) - I') or \
               _residual_fail(_sumprod(X, A), I, scale_of(X, A), pool, tol, 'inv(a).a - I')
     elif why is None and fn == 'det':
+        flat_d = [e for row in case['a'] for e in row] if first else []
         V = np.array([[complex(_val(e)) for e in row] for row in A])
         d = np.linalg.det(V); sc = float(np.prod([np.linalg.norm(row) for row in V])) + 1e-300
         if abs(complex(_val(r)) - d) > tol * sc:
             why = 'det value %r differs from the determinant %r' % (_val(r), d)
         else:
             # cofactor sensitivities: for an elementary input used in exactly one element, alone
-            flat = [e for row in case['a'] for e in row]
+            flat = flat_d
             n = len(A)
-            for k, x in enumerate(pool):
+            for k, x in enumerate(pool if first else []):
                 uses = [idx for idx, e in enumerate(flat) if e == ['p', k]]
                 others = [e for e in flat if e[0] in ('m', 'q') and (k in [t[0] for t in e[1]] if e[0] == 'm' else k in e[1:3])]
                 if len(uses) != 1 or others or not isinstance(r, lib.UncertainReal): continue
@@ -641,8 +956,7 @@ def oracle_check(case):
         n, m = a.shape
         if r.shape != (m, n) or any(r[j, i] is not a[i, j] for i in range(n) for j in range(m)):
             why = 'transpose does not only permute'
-    if why is None: return None
-    return dict(case, why=why, rhs_zero_uncertain=rhs_zero_uncertain(case))
+    return why
 
 def rhs_zero_uncertain(case):
     """does b hold an element whose value is 0 while it carries uncertainty (finding C15-1)?"""
@@ -651,6 +965,7 @@ def rhs_zero_uncertain(case):
         pool, a, b = build(case)
     except Exception:
         return False
-    if b is None: return False
+    import numpy as np
+    if b is None or not isinstance(b, np.ndarray): return False
     return any(isinstance(e, (lib.UncertainReal, lib.UncertainComplex)) and e.x == 0 and
                any(_comp(e, x) != 0 for x in pool) for e in b.flat)
